@@ -130,7 +130,7 @@ fn shape_profile(shape: u32) -> Profile {
 
 pub fn decode(tape: &[u32]) -> Case {
     let mut t = Tape::new(tape);
-    let shape = t.weighted(&[3, 3, 2, 1, 3]) as u32;
+    let shape = t.weighted(&[3, 3, 2, 3, 3]) as u32;
     let pf = shape_profile(shape);
     let prog = gen_program(&mut t, &pf);
     let hist = gen_history(&mut t, &prog, &pf);
